@@ -25,7 +25,12 @@ def streams(rng, tier, ctx):
         for i in range(n):
             r = rng.fork()
             it.op("=== gen%d" % i)
-            sim = E.general_scenario(r, it, tier, forge=True, codec=codec, variants=(i % 2 == 0), disconnects=(i % 3 == 0),
+            scfg = None
+            if i % 4 == 1:
+                # a server whose limits all differ from one another (and from the clients'), compatible with the default client
+                scfg = dict(E.DEFAULT_EP, maxpkt=r.pick([10_000, 100_000, 500_000]), alloc=r.pick([1_000_000, 1_500_000, 3_000_000]),
+                            recv=r.pick([300_000, 1_234_567]), send=r.pick([400_000, 2_345_678]))
+            sim = E.general_scenario(r, it, tier, forge=True, codec=codec, variants=(i % 2 == 0), disconnects=(i % 3 == 0), srv_cfg=scfg,
                                      limits=(8, r.pick([8, 2])), dt_choices=(5_000_000, 50_000_000, 500_000_000))
             cid = "h%d" % i
             cases.append((cid, sim.ops)); meta[cid] = sim
@@ -80,6 +85,26 @@ def oracle(stream, cid, ops, outs):
         if dfs and my:
             if dfs[0]["id"] != my[0] or (dfs[0]["dgs"] and dfs[0]["dgs"][0]["seq"] != (my[0] & 0xFFFFF) and dfs[0]["dgs"][0]["frag"] == 0 and False):
                 fails.append({"oracle": "agreement", "detail": "client %d: first data frame id %d but SYN nonce %d" % (i, dfs[0]["id"], my[0]), "signature": {"oracle": "agreement"}})
+    # --- negotiated limits: the handshake frames of either endpoint carry that endpoint's own configuration
+    U32 = 0xFFFFFFFF
+    sc = sim.srv_cfg
+    if sc:
+        want = [min(sc["recv"], U32), min(sc["maxpkt"], U32), min(sc["alloc"], U32)]
+        for (p, dr), dgs in log.items():
+            if dr != "s2c":
+                continue
+            for d in dgs:
+                if d["kind"] == "synack" and not d.get("forged") and [int(x) for x in d["f"][3:6]] != want:
+                    fails.append({"oracle": "limits_agree", "detail": "SYN-ACK to peer %d advertises (max_receive_rate, max_packet_size, max_receive_alloc) = %s but the server is configured with %s" %
+                                  (p, d["f"][3:6], want), "signature": {"oracle": "limits_agree", "side": "server"}})
+                    break
+    for i, cc in sim.clients.items():
+        want = [min(cc["recv"], U32), min(cc["maxpkt"], U32), min(cc["alloc"], U32)]
+        for d in log.get((i, "c2s"), []):
+            if d["kind"] == "syn" and not d.get("forged") and [int(x) for x in d["f"][3:6]] != want:
+                fails.append({"oracle": "limits_agree", "detail": "SYN of client %d advertises %s but the client is configured with %s" % (i, d["f"][3:6], want),
+                              "signature": {"oracle": "limits_agree", "side": "client"}})
+                break
     # --- refusals: a delivered SYN with a wrong version must be answered (if at all) by error code 0 echoing its nonce
     for (t, dr, p, d) in delivered:
         if dr == "c2s" and d.get("kind") == "syn" and int(d["f"][1]) != 3:
